@@ -52,7 +52,7 @@ ASSUMPTIONS = [
     "GROUP BY over zero solutions may yield zero rows (18.5 Group) or one row without bindings (W3C test agg-empty-group): both accepted",
 ]
 TRUSTED = ["harness/c08.py generators, canonicalisation and the 18.5 checker", "lean/RV/C08/Drive.lean line protocol and query parser",
-           "TABLES(): datatype tables copied from rdflib.plugins.sparql.datatypes / rdflib.term / evalutils._val"]
+           "TABLES(): tables probed from the live type_promotion / operators.numeric / Literal.eq / _val / one query per aggregate"]
 
 E_NS = "http://e/"
 XS = str(XSD)
@@ -176,8 +176,7 @@ NUMERIC_DTS = None
 def _numeric_dts():
     global NUMERIC_DTS
     if NUMERIC_DTS is None:
-        from rdflib.term import _NUMERIC_LITERAL_TYPES
-        NUMERIC_DTS = {str(u) for u in _NUMERIC_LITERAL_TYPES}
+        NUMERIC_DTS = {XS + n for n in XSD_NUMERIC_NAMES}
     return NUMERIC_DTS
 
 
@@ -1169,74 +1168,109 @@ MATCHERS = {"order_derived_numeric": _m_order_derived}
 # ------------------------------------------------------------------ regenerated tables (source -> Lean)
 
 
+XSD_NUMERIC_NAMES = ["integer", "decimal", "float", "double", "byte", "int", "long", "negativeInteger", "nonNegativeInteger",
+                     "nonPositiveInteger", "positiveInteger", "short", "unsignedByte", "unsignedInt", "unsignedLong", "unsignedShort"]
+TABLE_DT_NAMES = XSD_NUMERIC_NAMES[:4] + sorted(XSD_NUMERIC_NAMES[4:] + ["boolean", "string"])
+
+
 def TABLES():
-    """lean/RV/C08/Tables.lean from the live rdflib modules: numeric datatypes, super types, promotion map,
-    datatype-URI order (used by Literal.__gt__ across datatypes), evalutils._val ranks, accumulator keys."""
-    from rdflib.plugins.sparql import datatypes as D
-    from rdflib.plugins.sparql.aggregates import Aggregator
-    from rdflib.plugins.sparql.evalutils import _val
+    """lean/RV/C08/Tables.lean, extracted BEHAVIOURALLY from the live rdflib (no private table is read, so a
+    refactoring that keeps the behaviour keeps the tables): `type_promotion(t1, t2)` called on all pairs of a fixed
+    list of XSD datatypes (TypeError = none), the super type as `type_promotion(t, t)`, which datatypes
+    `operators.numeric` accepts, which datatypes Literal comparison treats as numeric (value equality with an
+    xsd:integer), the ORDER BY position of one representative per kind (= `_val` ranks), the datatype-URI string order, and which of the
+    seven aggregates evaluate in a query."""
+    from rdflib.plugins.sparql.datatypes import type_promotion
     from rdflib.plugins.sparql.operators import numeric
     from rdflib.plugins.sparql.sparql import SPARQLError
-    from rdflib.term import _NUMERIC_LITERAL_TYPES
 
-    uris = set(_NUMERIC_LITERAL_TYPES) | set(D._super_types) | set(D._super_types.values()) | set(D._typePromotionMap)
-    for m in D._typePromotionMap.values():
-        uris |= set(m) | set(m.values())
-    uris |= {XSD.boolean, XSD.string}
-    bad = [u for u in uris if not str(u).startswith(XS)]
-    if bad:
-        raise ValueError(f"non-XSD datatype in the tables: {bad}")
-    first = ["integer", "decimal", "float", "double"]
-    names = first + sorted(str(u)[len(XS):] for u in uris if str(u)[len(XS):] not in first)
+    names = list(TABLE_DT_NAMES)
     by_uri = sorted(names, key=lambda n: XS + n)
+    U = lambda n: URIRef(XS + n)
+
+    def promo(a, b):
+        try:
+            r = type_promotion(U(a), U(b))
+        except TypeError:
+            return None
+        r = str(r)
+        if not r.startswith(XS) or r[len(XS):] not in names:
+            raise ValueError(f"type_promotion({a}, {b}) = {r}: outside the table's datatypes")
+        return r[len(XS):]
 
     def acc(n):
         try:
-            numeric(Literal("1", datatype=URIRef(XS + n)))
+            numeric(Literal("1", datatype=U(n)))
             return True
         except SPARQLError:
             return False
 
-    ranks = {"Variable": _val(Variable("v"))[0], "BNode": _val(BNode("b"))[0], "URIRef": _val(URIRef("u:u"))[0],
-             "Literal": _val(Literal("l"))[0]}
-    L = ["/- GENERATED on every run by harness/c08.py TABLES() from rdflib.plugins.sparql.datatypes, rdflib.term,",
-         "   rdflib.plugins.sparql.evalutils, rdflib.plugins.sparql.operators, rdflib.plugins.sparql.aggregates — do not edit. -/",
+    def numeric_term(n):  # compared in value space with other numeric datatypes?
+        other = U("decimal" if n == "integer" else "integer")
+        for lex in ("1", "-1"):  # a lexical form that is well-typed for n
+            try:
+                if Literal(lex, datatype=U(n)).eq(Literal(lex, datatype=other)) is True:
+                    return True
+            except TypeError:
+                pass
+        return False
+
+    sup = {}
+    for n in names:
+        r = promo(n, n)
+        if r is None:
+            raise ValueError(f"type_promotion({n}, {n}) raises")
+        sup[n] = r
+    # kind ranks of the ORDER BY key, observed through a query: unbound, blank node, IRI, literal
+    g = Graph()
+    T, P, TY = URIRef(E_NS + "T"), URIRef(E_NS + "p"), URIRef(E_NS + "t")
+    reps = {"Variable": None, "BNode": BNode("b"), "URIRef": URIRef(E_NS + "u"), "Literal": Literal("l")}
+    for k, (kind, term) in enumerate(reps.items()):
+        g.add((URIRef(E_NS + "s%d" % k), TY, T))
+        if term is not None:
+            g.add((URIRef(E_NS + "s%d" % k), P, term))
+    order = [b.get(Variable("v")) for b in g.query(
+        "SELECT ?v WHERE { ?s <%s> <%s> OPTIONAL { ?s <%s> ?v } } ORDER BY ?v" % (TY, T, P)).bindings]
+    if len(order) != 4:
+        raise ValueError("rank probe: expected 4 solutions")
+    ranks = {kind: order.index(term) for kind, term in reps.items()}
+    g = Graph()
+    evaluated = []
+    for kw in ["COUNT", "SAMPLE", "SUM", "AVG", "MIN", "MAX", "GROUP_CONCAT"]:
+        try:
+            rows = list(g.query("SELECT (%s(?v) AS ?x) WHERE { VALUES ?v { 1 2 } }" % kw).bindings)
+            if len(rows) == 1 and rows[0].get(Variable("x")) is not None:
+                evaluated.append(kw)
+        except Exception:  # noqa: BLE001
+            pass
+    L = ["/- GENERATED on every run by harness/c08.py TABLES() by PROBING the live rdflib: type_promotion(t1, t2) on all",
+         "   pairs, operators.numeric, Literal.eq, evalutils._val, one query per aggregate — do not edit. -/",
          "namespace RV.C08", "",
-         "/-- XSD datatypes that occur in the numeric tables, plus boolean and string -/",
+         "/-- the XSD numeric datatypes, plus boolean and string -/",
          "inductive DT", "  " + " ".join("| " + n for n in names), "  deriving DecidableEq, Repr", "",
          "def DT.all : List DT := [" + ", ".join("." + n for n in names) + "]", "",
          "def DT.name : DT → String"] + [f'  | .{n} => "{n}"' for n in names] + ["",
          "def DT.ofName? (s : String) : Option DT := DT.all.find? (fun d => d.name == s)", "",
          "/-- position of the datatype URI in Python `str` order (Literal.__gt__ orders unlike datatypes by URI) -/",
          "def DT.uriRank : DT → Nat"] + [f"  | .{n} => {by_uri.index(n)}" for n in names] + ["",
-         "/-- rdflib.term._NUMERIC_LITERAL_TYPES -/", "def DT.isNumericTerm : DT → Bool"] + \
-        [f"  | .{n} => {'true' if URIRef(XS + n) in _NUMERIC_LITERAL_TYPES else 'false'}" for n in names] + ["",
+         "/-- datatypes that Literal comparison takes into value space together with the other numeric ones -/",
+         "def DT.isNumericTerm : DT → Bool"] + \
+        [f"  | .{n} => {'true' if numeric_term(n) else 'false'}" for n in names] + ["",
          "/-- datatypes accepted by rdflib.plugins.sparql.operators.numeric -/", "def DT.isNumericOp : DT → Bool"] + \
         [f"  | .{n} => {'true' if acc(n) else 'false'}" for n in names] + ["",
-         "/-- datatypes._super_types.get(t, t) -/", "def DT.superType : DT → DT"] + \
-        [f"  | .{n} => .{str(D._super_types.get(URIRef(XS + n), URIRef(XS + n)))[len(XS):]}" for n in names] + ["",
-         "/-- datatypes._typePromotionMap[t1][t2]; none = KeyError -/", "def promoMap : DT → DT → Option DT"]
-    for a in names:
-        for b in names:
-            r = D._typePromotionMap.get(URIRef(XS + a), {}).get(URIRef(XS + b))
+         "/-- the type a datatype is promoted as: type_promotion(t, t) -/", "def DT.superType : DT → DT"] + \
+        [f"  | .{n} => .{sup[n]}" for n in names] + ["",
+         "/-- type_promotion(t1, t2); none = it raises TypeError -/", "def promoTab : DT → DT → Option DT"]
+    for a_ in names:
+        for b_ in names:
+            r = promo(a_, b_)
             if r is not None:
-                L.append(f"  | .{a}, .{b} => some .{str(r)[len(XS):]}")
+                L.append(f"  | .{a_}, .{b_} => some .{r}")
     L += ["  | _, _ => none", "",
-          "/-- evalutils._val kind ranks -/",
+          "/-- kind ranks of ORDER BY keys (evalutils._val), observed by sorting one term of each kind -/",
           f"def rankVariable : Nat := {ranks['Variable']}", f"def rankBNode : Nat := {ranks['BNode']}",
           f"def rankIRI : Nat := {ranks['URIRef']}", f"def rankLiteral : Nat := {ranks['Literal']}", "",
-          "/-- aggregates.Aggregator.accumulator_classes keys and their classes -/",
-          "def accumulatorClasses : List (String × String) := [" +
-          ", ".join(f'("{k}", "{v.__name__}")' for k, v in Aggregator.accumulator_classes.items()) + "]", "",
+          "/-- aggregates that evaluate to a value in `SELECT (AGG(?v) AS ?x) WHERE { VALUES ?v { 1 2 } }` -/",
+          "def aggregatesEvaluated : List String := [" + ", ".join(f'"{k}"' for k in evaluated) + "]", "",
           "end RV.C08", ""]
     return "\n".join(L)
-
-
-def _tag(prefix):
-    return lambda case, result: any(v.startswith(prefix) for v in result["viol"])
-
-
-# matchers of the *fixed* entries (documentation; core only consults matchers of `known` entries)
-MATCHERS.update({"abort_distinct_unbound": _tag("abort"), "abort_sum_nonnumeric": _tag("abort"), "agg_error_value": _tag("abort"),
-                 "minmax_iri": _tag("group"), "abort_order_error": _tag("abort"), "order_unselected_key": _tag("order"),
-                 "sum_derived_dt": _tag("group"), "avg_float_dt": _tag("group")})
